@@ -479,7 +479,22 @@ def raise_discipline(ctx):
     rs = [n for n in u.own_nodes() if isinstance(n, ast.Raise) and not in_handler_of(n) and is_name(n.exc, errvar)]
     ok = len(rs) == 1
     ctx.ob(ok, u, 'the translated error is raised outside the handler (no implicit chaining): %s' % [norm(r) for r in rs])
-    unguarded = ok and not [a for a in ancestors(rs[0]) if isinstance(a, ast.If)]
+    # the pending-error test, wherever it is written: an enclosing ``if err is not None:`` or a guard
+    # clause ``if err is None: return ret`` before the raise (the raise is reachable from one of
+    # its edges only)
+    gtest = None
+    if ok:
+        rn0 = cfg.node_of(rs[0])
+        for tnode in cfg.nodes:
+            if tnode.kind != 'test' or not cfg.dominates(tnode, rn0) or errvar not in {x.id for x in ast.walk(tnode.ast) if isinstance(x, ast.Name)}:
+                continue
+            if tnode in body_nodes:
+                continue
+            reach = [lab for lab in ('true', 'false')
+                     if cfg.find_path(tnode, {rn0}, labels=lambda l: l != 'exc', start_labels=lambda l, y=lab: l == y) is not None]
+            if len(reach) == 1:
+                gtest = (tnode, reach[0])
+    unguarded = ok and gtest is None
     if unguarded:
         # ``try: .. except: <bind err> else: return ret`` followed by a plain ``raise err``: the raise
         # is reached from the handler only, after err was bound there
@@ -494,14 +509,10 @@ def raise_discipline(ctx):
         return
     if ok:
         g = [a for a in ancestors(rs[0]) if isinstance(a, ast.If)]
-        t = g[0].test if g else None
+        t = gtest[0].ast
         # the pending-error test must not depend on the truth value of a user-defined exception object
         # (an exception class with __len__ / __bool__ may be falsy): `err is not None`, not `if err:`
-        def _is_none_cmp(x, op):
-            return isinstance(x, ast.Compare) and is_name(x.left, errvar) and isinstance(x.ops[0], op) \
-                and isinstance(x.comparators[0], ast.Constant) and x.comparators[0].value is None
-        identity = _is_none_cmp(t, ast.IsNot) or (isinstance(t, ast.UnaryOp) and isinstance(t.op, ast.Not)
-                                                  and _is_none_cmp(t.operand, ast.Is))
+        identity = polarity(t, '%s is not None' % errvar) == gtest[1]
         ctx.ob(identity, u, 'a pending error is detected by identity (`%s is not None`), not by truth value: %s'
                % (errvar, norm(t) if t is not None else None),
                '' if identity else 'an exception whose class defines __len__/__bool__ and is falsy is not re-raised: glom() falls '
@@ -756,4 +767,21 @@ def error_rendering_is_total(ctx):
         ctx.ob(not bad, u, '%s.%s renders without re-building a Path from recorded parts' % (u.cls.name, u.name),
                '' if not bad else '%s raises ValueError for a part that is an S- / A-rooted expression' % bad)
     ctx.require(n >= 8, 'error rendering methods not found (%d)' % n)
+    # ... and the same for a message built at the raise site: ``raise TypeError('... at %r' %
+    # Path(*scope[Path]))`` -- the path recorded in the scope holds whatever steps ran before,
+    # S- / A-rooted ones included, and Path() refuses those with a ValueError that then replaces
+    # the error being raised
+    m = 0
+    for u in p.package_units():
+        if u.module.short in ('tutorial', 'cli'):
+            continue
+        for r in [x for x in u.own_nodes() if isinstance(x, ast.Raise) and x.exc is not None]:
+            m += 1
+            bad = [norm(c)[:60] for c in ast.walk(r.exc) if isinstance(c, ast.Call) and callee_qual(p, u, c) == 'core.Path'
+                   and any(isinstance(a, ast.Starred) for a in c.args)]
+            if bad:
+                ctx.ob(False, u, 'the message of `raise %s` is built without re-building a Path from recorded parts' % src(r.exc.func if isinstance(r.exc, ast.Call) else r.exc, 30),
+                       '%s raises ValueError when an S- / A-rooted step was recorded before: that ValueError leaves glom() instead' % bad, node=r)
+    ctx.ob(True, 'package', 'raise statements examined for partial message construction: %d' % m)
+    ctx.require(m >= 60, 'raise statements not found (%d)' % m)
     ctx.floor(8)
